@@ -120,7 +120,7 @@ class Explorer:
                                         'spec.c02', 'fpy2.number.context', 'fpy2.transform.path', 'fpy2.transform.cursor', 'fpy2.transform.error',
                                         'fpy2.analysis.format_infer', 'fpy2.number.engine'])
         # stand-in classes for external objects (Python ast nodes) live in spec modules; searched last
-        self.types.default_modules += [m for m in ('spec.c06', 'spec.c07', 'spec.c19x') if index.module(m) is not None]
+        self.types.default_modules += [m for m in ('spec.c06', 'spec.c07', 'spec.c19x', 'spec.c02x') if index.module(m) is not None]
         self.intrinsics = Intrinsics(self)
         self.global_cache = {}
         self.tags = Tags()
@@ -456,6 +456,8 @@ class Explorer:
                     # vacuous; the count of pruned paths goes into the evidence, and the must-fail mutants are
                     # the guard against vacuous contracts.
                     self.stats['paths_pruned_by_callee_post'] += 1
+                    if os.environ.get('PYVC_DEBUG'):
+                        print(f'[pyvc] callee post clause concretely false: {c.name}[{k}]', flush=True)
                 P.assume(cond, fact=True)
         return None if is_init else result
 
